@@ -89,7 +89,15 @@ def chan_emit(ghost, event, *args):
 
 
 def mgr_send_control_frame(ghost, connection, cid, frame):
+    """recording stub: counts the frames and remembers the outcome of the last connection response"""
     ghost.frames = ghost.frames + 1
+    ghost.last_handle = connection.handle
+    if isinstance(frame, l2cap.L2CAP_LE_Credit_Based_Connection_Response):
+        ghost.le_result = frame.result
+        ghost.le_dcid = frame.destination_cid
+    if isinstance(frame, l2cap.L2CAP_Connection_Response):
+        ghost.cl_result = frame.result
+        ghost.cl_dcid = frame.destination_cid
 
 
 CHAN_COMMON = dict(
@@ -103,7 +111,14 @@ CHAN_COMMON = dict(
 )
 model(
     'bumble.l2cap:LeCreditBasedChannel#c09',
-    fields=dict(CHAN_COMMON, out_queue=RefT('queues'), drained=Event()),
+    fields=dict(
+        CHAN_COMMON,
+        out_queue=RefT('queues'),
+        drained=Event(),
+        connected=Bool,
+        psm=Int, mtu=Int, mps=Int, credits=Int, peer_mtu=Int, peer_mps=Int, peer_credits=Int, peer_max_credits=Int, peer_credits_threshold=Int,
+        in_sdu_length=Int, att_mtu=Int,
+    ),
     methods={'emit': Callback('emit', effect=chan_emit)},
 )
 model(
@@ -118,9 +133,16 @@ model(
         le_coc_channels=RefT('odicts'),
         identifiers=RefT('idicts'),
         pending_credit_based_connections=RefT('podicts'),
+        le_coc_servers=RefT('lsdicts'),
     ),
     methods={'send_control_frame': Callback('send_control_frame', effect=mgr_send_control_frame)},
 )
+
+def srv_on_connection(ghost, channel):
+    ghost.accepted = ghost.accepted + 1
+
+
+model('ghost:LeServer#c09', fields=dict(mtu=IntRange(23, 65535), mps=IntRange(23, 65533), max_credits=IntRange(0, 65535)), methods={'on_connection': Callback('on_connection', effect=srv_on_connection)})
 
 HEAP = dict(
     conns=PoolOf('ghost:Conn#c09'),
@@ -133,8 +155,16 @@ HEAP = dict(
     pdicts=PoolOf(dict_of=TupleOf(RefT('futs'), Opaque('chlist'))),
     podicts=PoolOf(dict_of=RefT('pdicts')),
     mgrs=PoolOf('bumble.l2cap:ChannelManager#c09'),
+    leservers=PoolOf('ghost:LeServer#c09'),
+    lsdicts=PoolOf(dict_of=RefT('leservers')),
     emitted=Int,
     frames=Int,
+    last_handle=Int,
+    le_result=Int,
+    le_dcid=Int,
+    cl_result=Int,
+    cl_dcid=Int,
+    accepted=Int,
 )
 MGR = RefT('mgrs')
 CHAN = RefT('chans')
@@ -342,6 +372,7 @@ contract(
         (res not in channels and LE_LO <= res and res <= LE_HI and forall(LE_LO, res, lambda c: c in channels)) if res is not None else True,
     ],
     ensures_names=['none-iff-full', 'free-in-range-minimal'],
+    returns=Opt(IntRange(0, 0xFFFF)),
     uses=['bumble.l2cap:ChannelManager.find_free_le_cids@callee'],
     modifies=[],
 )
